@@ -41,12 +41,10 @@ pub fn applicable(w: &World) -> bool {
     affordable && build_dir().join("blockwatch").exists()
 }
 
+/// The start directory. Script paths in `check-lua` are relative to it: in worlds with scripts the
+/// script files (and the scripts' call log) live below the start directory, wherever that is.
 fn effective_cwd(w: &World) -> String {
-    if w.scripts.is_empty() && !uses_lua(w) {
-        w.cwd.clone()
-    } else {
-        String::new()
-    }
+    w.cwd.clone()
 }
 
 fn uses_lua(w: &World) -> bool {
@@ -535,11 +533,12 @@ pub fn run_level_b(
         write_file(&root, target, &(world.gitignore.join("\n") + "\n"));
         git_exclude_used = local_exclude;
     }
+    let script_base = if world.cwd.is_empty() { root.clone() } else { root.join(&world.cwd) };
     for s in &world.scripts {
-        let _ = lua::write_script(&root, s, &BTreeMap::new(), &plan.lua_busy, 0);
+        let _ = lua::write_script(&script_base, s, &BTreeMap::new(), &plan.lua_busy, 0);
     }
     if uses_lua(world) {
-        let _ = std::fs::create_dir_all(root.join("lua"));
+        let _ = std::fs::create_dir_all(script_base.join("lua"));
     }
 
     // ---- stdin
@@ -746,7 +745,7 @@ pub fn run_level_b(
             foreign_requests = before - rr.net_log.len();
         }
     }
-    rr.lua_calls = lua::read_call_log(&root);
+    rr.lua_calls = lua::read_call_log(&if world.cwd.is_empty() { root.clone() } else { root.join(&world.cwd) });
     rr.obs = Some(obs.clone());
 
     let mut mismatches = oracle::check(world, &j, &rr, &OracleCfg { level_b: true });
